@@ -9,7 +9,7 @@ Three correspondence streams over the fake broker, each on both transports
   (iii) address strings of the documented grammar and message field combinations through the real
         Producer / Consumer, compared with the model (`amqp consumer|producer|send|clamp|ack`).
 """
-import asyncio, copy, inspect, json, math
+import asyncio, copy, inspect, json, math, os
 import common, explore, enginerun, engine_props, machgen
 import sim as simmod
 from common import cj, pj
@@ -28,7 +28,7 @@ def classify(f, case, impl_out, model_out):
 
 class Recorder(object):
     """wraps the *fake* channel's methods (harness side) and notes every call with its bound arguments"""
-    METHODS = ("exchange_declare", "queue_declare", "queue_bind", "basic_consume", "basic_publish", "basic_ack")
+    METHODS = ("basic_qos", "exchange_declare", "queue_declare", "queue_bind", "basic_consume", "basic_publish", "basic_ack")
 
     def __init__(self):
         self.calls = []
@@ -71,30 +71,74 @@ class Recorder(object):
         return len(self.calls)
 
 
-def op_json(rec):
+def op_json(rec, session_channel):
+    """the complete frame: every argument of the call as the client library would put it on the wire, and the channel
+    it is sent on ("session": the session's channel; "temp": any other channel of that connection)"""
     a = rec["args"]
+    ch = "session" if rec["ch"] is session_channel else "temp"
+    if rec["op"] == "basic_qos":
+        return {"op": "qos", "channel": ch, "prefetch_size": a["prefetch_size"], "prefetch_count": a["prefetch_count"],
+                "global_qos": a["global_qos"]}
     if rec["op"] == "exchange_declare":
-        return {"op": "exchange_declare", "exchange": a["exchange"], "type": a["exchange_type"], "passive": a["passive"],
-                "durable": a["durable"], "auto_delete": a["auto_delete"], "arguments": a["arguments"]}
+        return {"op": "exchange_declare", "channel": ch, "exchange": a["exchange"], "type": a["exchange_type"],
+                "passive": a["passive"], "durable": a["durable"], "auto_delete": a["auto_delete"], "internal": a["internal"],
+                "arguments": a["arguments"]}
     if rec["op"] == "queue_declare":
-        return {"op": "queue_declare", "queue": a["queue"], "passive": a["passive"], "durable": a["durable"],
+        return {"op": "queue_declare", "channel": ch, "queue": a["queue"], "passive": a["passive"], "durable": a["durable"],
                 "exclusive": a["exclusive"], "auto_delete": a["auto_delete"], "arguments": a["arguments"]}
     if rec["op"] == "queue_bind":
-        return {"op": "queue_bind", "queue": a["queue"], "exchange": a["exchange"], "key": a["routing_key"],
+        return {"op": "queue_bind", "channel": ch, "queue": a["queue"], "exchange": a["exchange"], "key": a["routing_key"],
                 "arguments": a["arguments"]}
     if rec["op"] == "basic_consume":
-        return {"op": "consume", "queue": a["queue"], "exclusive": a["exclusive"], "arguments": a["arguments"]}
+        return {"op": "consume", "channel": ch, "queue": a["queue"], "auto_ack": a["auto_ack"], "exclusive": a["exclusive"],
+                "consumer_tag": a["consumer_tag"], "arguments": a["arguments"]}
     return None
 
 
-def declarations(rec, since, channel):
-    """the declarations made on `channel` since mark `since` (the existence probe uses a temporary channel)"""
+def declarations(rec, since, channel, until=None):
+    """every set-up frame (prefetch, probe, declarations, bindings, subscription) sent since mark `since` on any channel of
+    the connection `channel` belongs to"""
     out = []
-    for r in rec.calls[since:]:
-        if r["ch"] is channel:
-            j = op_json(r)
+    for r in rec.calls[since:until]:
+        if r["ch"].connection is channel.connection:
+            j = op_json(r, channel)
             if j is not None:
                 out.append(j)
+    return out
+
+
+def broker_entities(broker):
+    """what the broker holds, as a set of canonical texts (the shape of the model's `Entity`)"""
+    out = set()
+    for n, e in broker.exchanges.items():
+        out.add(cj({"entity": "exchange", "exchange": n, "type": e["type"], "durable": e["durable"],
+                    "auto_delete": e["auto_delete"], "internal": e["internal"], "arguments": e["arguments"]}))
+    for n, q in broker.queues.items():
+        out.add(cj(dict(q.describe(), entity="queue")))
+        for c in q.consumers:
+            out.add(cj({"entity": "subscription", "queue": n, "auto_ack": c.auto_ack, "exclusive": c.exclusive,
+                        "arguments": c.arguments, "conn": c.channel.connection.ident, "ch": c.channel.channel_number}))
+    for (e, q, k) in broker.bindings:
+        out.add(cj({"entity": "binding", "exchange": e, "queue": q, "key": k}))
+    return out
+
+
+def model_entities(creates, env, conn=None, chno=None, existing=()):
+    """the model's `created` list in the same shape: the server-named queue gets the name the broker will give it, a
+    binding's missing key is the empty key, binding arguments are not kept by the fake broker; redeclaring something
+    that exists creates nothing"""
+    out = set()
+    for e in creates:
+        e = dict(e)
+        if e["entity"] == "queue" and e["queue"] == "":
+            e["queue"] = env["anon"]
+        if e["entity"] == "binding":
+            e = {"entity": "binding", "exchange": e["exchange"], "queue": e["queue"], "key": e["key"] or ""}
+        if e["entity"] == "subscription" and conn is not None:
+            e["conn"], e["ch"] = conn, chno
+        if e["entity"] == "exchange" and e["exchange"] in existing:
+            continue
+        out.add(cj(e))
     return out
 
 
@@ -138,33 +182,51 @@ class Layer(object):
         return {"exchanges": sorted(k for k in self.broker.exchanges if k != ""),
                 "anon": "amq.gen-%d" % (self.broker.anon + 1)}
 
-    def consumer(self, addr, listener):
+    def consumer(self, addr, listener, capacity=None):
+        """as the engine does it: consumer(addr), optionally .capacity = n, then set_message_listener"""
         c = self.wait(self.session.consumer(addr))
+        if capacity is not None:
+            c.capacity = capacity
         self.wait(c.set_message_listener(listener))
         return c
 
     def producer(self, addr):
         return self.wait(self.session.producer(addr))
 
+    def run_threadsafe_callbacks(self):
+        """what `add_callback_threadsafe` queued on this connection runs on the connection's own loop: now"""
+        from pika import connection as pconn
+        n = 0
+        for t in sorted(pconn.WHEEL.live(owner=self.session.channel.connection), key=lambda t: t.seq):
+            if t.at <= pconn.WHEEL.now_ms:
+                t.fired = True
+                t.callback()
+                n += 1
+        return n
 
-def impl_open(layer, rec, role, addr):
-    """('ok', ops, extra) | ('err', kind) | ('refused', ops) | ('exc', class)"""
+
+def impl_open(layer, rec, role, addr, capacity=None):
+    """('ok', ops, extra, new entities) | ('err', kind) | ('refused', ops) | ('exc', class)"""
     from asl_workflow_engine import messaging_exceptions as mx
     m0 = rec.mark()
     ch = layer.session.channel
+    before = broker_entities(layer.broker)
     try:
         if role == "consumer":
-            c = layer.consumer(addr, lambda m: None)
-            return ("ok", declarations(rec, m0, ch), {"queue": c.name})
+            c = layer.consumer(addr, lambda m: None, capacity)
+            return ("ok", declarations(rec, m0, ch), {"queue": c.name}, sorted(broker_entities(layer.broker) - before))
         p = layer.producer(addr)
-        return ("ok", declarations(rec, m0, ch), {"exchange": p.name, "subject": p.subject})
+        return ("ok", declarations(rec, m0, ch), {"exchange": p.name, "subject": p.subject},
+                sorted(broker_entities(layer.broker) - before))
     except (mx.ConsumerError, mx.ProducerError) as e:
         ops = declarations(rec, m0, ch)
         text = str(e)
         if text.startswith("Failed to parse address"):
             return ("err", "parse")
-        if not ops and text.startswith("NOT_FOUND - no exchange"):
-            return ("err", "noExchange")
+        # a subject on something that is not an exchange: the passive probe said so and nothing was declared
+        if text.startswith("NOT_FOUND - no exchange") and ops and ops[-1]["channel"] == "temp" and \
+                all(o["op"] == "qos" or o["channel"] == "temp" for o in ops):
+            return ("err", "noExchange", ops)
         return ("refused", ops)
     except layer.pika.exceptions.ChannelClosedByBroker:
         return ("refused", declarations(rec, m0, ch))
@@ -172,8 +234,10 @@ def impl_open(layer, rec, role, addr):
         return ("exc", type(e).__name__)
 
 
-def model_open_line(role, transport, env, addr):
-    return "amqp\t%s\t%s\t%s\t%s" % (role, transport, pj(env), pj(addr))
+def model_open_line(role, transport, env, addr, capacity=None):
+    if role == "consumer":
+        return "amqp\tconsumer\t%s\t%s\t%s\t%s" % (transport, pj(env), pj(addr), pj(capacity))
+    return "amqp\tproducer\t%s\t%s\t%s" % (transport, pj(env), pj(addr))
 
 
 def parse_answer(line):
@@ -205,6 +269,8 @@ def gen_declare(rng, name, link=False):
             d[k] = rng.random() < 0.6
     if rng.random() < 0.06:
         d["passive"] = True
+    if rng.random() < 0.12:
+        d["internal"] = rng.random() < 0.7
     if rng.random() < 0.3:
         d["arguments"] = rng.choice(ARGS)
     return d
@@ -279,6 +345,12 @@ def malformed_addresses(rng, n):
     fixed = ["q1;", "q1; ", "q1; {", "q1; }", "q1; {\"node\"}", "q1; {\"node\": }", "q1; [1]", "q1; 5", "q1; \"s\"",
              "q1; null", "q1; {\"node\": 5}", "q1; {\"node\": [1]}", "q1; {\"node\": \"x\"}", "q1; {\"link\": true}",
              "q1; {\"node\": {\"x-declare\": 5}}", "q1; {\"node\": {\"x-bindings\": [5]}}",
+             "q1; {\"node\": {\"x-bindings\": 5}}", "q1; {\"node\": {\"x-bindings\": \"b\"}}",
+             "q1; {\"node\": {\"x-bindings\": {\"exchange\": \"amq.topic\"}}}", "q1; {\"link\": {\"x-declare\": 5}}",
+             "q1; {\"link\": {\"x-declare\": \"d\"}}", "q1; {\"link\": {\"x-declare\": [1]}}",
+             "q1; {\"link\": {\"x-subscribe\": 5}}", "q1; {\"link\": {\"x-subscribe\": \"s\"}}",
+             "q1; {\"link\": {\"x-subscribe\": [true]}}", "q1; {\"node\": {\"x-declare\": \"d\"}}",
+             "q1; {\"node\": {\"x-declare\": [1]}}",
              "q1; {\"node\": {\"x-bindings\": [{\"queue\": \"q1\"}]}}", "q1; {\"node\": {\"x-declare\": {\"queue\": 5}}}",
              "a;b; {\"node\": {\"durable\": true}}", "a/b/c", "a/b; {\"node\": {\"durable\": true}}", "{x", "{", "{}",
              "q1; {\"node\": {\"durable\": true}} ; x", "q1; {'node': {}}", "q1; {\"node\": {\"durable\": True}}",
@@ -301,26 +373,46 @@ def malformed_addresses(rng, n):
     return out
 
 
-def compare_open(chk, rec, role, transport, addr, pre, stream):
+def compare_open(chk, rec, role, transport, addr, pre, stream, capacity=None):
     layer = Layer(transport, pre)
     env = layer.env()
-    got = impl_open(layer, rec, role, addr)
-    return {"role": role, "transport": transport, "address": addr, "predeclared": [list(p) for p in pre], "env": env,
-            "stream": stream}, got
+    got = impl_open(layer, rec, role, addr, capacity if role == "consumer" else None)
+    case = {"role": role, "transport": transport, "address": addr, "predeclared": [list(p) for p in pre], "env": env,
+            "stream": stream, "conn": layer.session.channel.connection.ident, "chno": layer.session.channel.channel_number}
+    if role == "consumer":
+        case["capacity"] = capacity
+    return case, got
+
+
+def temp_frames_passive(ops):
+    """the property's clause on the implementation's own frames: whatever is sent outside the session channel only asks
+    (passive) — an address is never made to declare something it does not describe by the existence probe"""
+    return all(o["op"] == "exchange_declare" and o["passive"] is True for o in ops if o["channel"] == "temp")
 
 
 def judge_open(chk, case, got, ans):
     """compare one open() with the model's answer; True when the case counted as compared"""
     m = parse_answer(ans)
     role = case["role"]
+    ops_sent = got[1] if got[0] in ("ok", "refused") else (got[2] if got[0] == "err" and len(got) > 2 else [])
+    if not temp_frames_passive(ops_sent):
+        chk.report("impl-violates-law", case, impl=got, classify=classify,
+                   law="probe_declares_nothing: a frame sent on a temporary channel is a passive existence probe")
     if m[0] in ("unsupported", "bad-op"):
         chk.dist("addr.%s.unsupported(outside the grammar: %s)" % (case["stream"], got[0]))
         return False
     if m[0] == "err":
-        ok = got == ("err", m[1])
+        ok = got[:2] == ("err", m[1])
     elif got[0] == "ok":
         want = {"queue": m[1]["queue"]} if role == "consumer" else {"exchange": m[1]["exchange"], "subject": m[1]["subject"]}
         ok = cj(got[1]) == cj(m[1]["ops"]) and cj(got[2]) == cj(want)
+        # ... and what the broker holds afterwards that it did not hold before is what the model says these frames create
+        made = sorted(model_entities(m[1]["creates"], case["env"], case["conn"], case["chno"],
+                                     existing=set(case["env"]["exchanges"])))
+        if ok and got[3] != made:
+            chk.report("impl-differs-from-spec", case, impl={"new_entities": got[3]}, model={"creates": made}, classify=classify,
+                       law="address_creates: after %s.open the broker holds, beyond what it held, exactly what the address "
+                           "describes" % role)
     elif got[0] == "refused":
         # the fake broker refused one of the declarations: what was asked up to there must be a prefix
         ops = m[1]["ops"]
@@ -330,7 +422,8 @@ def judge_open(chk, case, got, ans):
         ok = False
     if not ok:
         chk.report("impl-differs-from-spec", case, impl=got, model=m, classify=classify,
-                   law="the declarations %s.open asks of the broker are the model's for this address" % role)
+                   law="the frames %s.open sends the broker (prefetch, passive probe, declarations, bindings, subscription; "
+                       "every argument; which channel) are the model's for this address" % role)
     return True
 
 
@@ -345,28 +438,31 @@ def run_addresses(chk, rec, quick):
     for a, pre in malformed_addresses(chk.rng, n // 3):
         todo.append((a, pre, "malformed"))
     for (a, pre, stream) in todo:
+        cap = chk.rng.choice([None, None, 1, 100, 1000, chk.rng.randint(0, 5000)])
         for role in ("consumer", "producer"):
             for tr in TRANSPORTS:
-                case, got = compare_open(chk, rec, role, tr, a, pre, stream)
+                case, got = compare_open(chk, rec, role, tr, a, pre, stream, cap)
                 cases.append(case)
                 gots.append(got)
-                lines.append(model_open_line(role, tr, case["env"], a))
+                lines.append(model_open_line(role, tr, case["env"], a, case.get("capacity")))
     answers = common.driver(lines, shards=8)
     by_addr = {}
     for case, got, ans in zip(cases, gots, answers):
         compared = judge_open(chk, case, got, ans)
-        chk.count("addr|" + cj([case["role"], case["transport"], case["address"], case["predeclared"]]),
-                  compared and got[0] == "ok" and len(got[1]) > 0)
+        chk.count("addr|" + cj([case["role"], case["transport"], case["address"], case["predeclared"], case.get("capacity")]),
+                  compared and got[0] == "ok" and any(o["channel"] == "session" and o["op"] != "qos" for o in got[1]))
         chk.dist("addr.%s.%s.%s" % (case["stream"], case["role"], got[0] if got[0] != "err" else "err-" + got[1]))
         if compared and got[0] == "ok":
             for o in got[1]:
-                chk.dist("addr.op." + o["op"])
+                chk.dist("addr.op.%s%s" % (o["op"], ".passive_probe" if o["channel"] == "temp" else ""))
+                if o["op"] == "exchange_declare" and o["internal"] is not False:
+                    chk.dist("addr.op.exchange_declare.internal")
         by_addr.setdefault((case["role"], case["address"], cj(case["predeclared"])), []).append((case, got))
         if len(chk.cov["samples"]) < 2 and got[0] == "ok" and len(got[1]) >= 3:
             chk.sample({"stream": "addr", "role": case["role"], "address": case["address"], "impl_ops": got[1]})
     # transports alike: the same address gives the same outcome on both transports
     for key, lst in by_addr.items():
-        if len(lst) == 2 and cj(lst[0][1]) != cj(lst[1][1]):
+        if len(lst) == 2 and cj(lst[0][1][:3]) != cj(lst[1][1][:3]):
             chk.report("impl-violates-law", dict(lst[0][0], transport="both"), impl={lst[0][0]["transport"]: lst[0][1],
                        lst[1][0]["transport"]: lst[1][1]}, classify=classify,
                        law="transports_alike: the asyncio and the blocking layer ask the same of the broker")
@@ -421,58 +517,101 @@ def gen_message(rng):
             "properties": props, "subject": rng.choice([None, None, "q1", "q1", "q2", ""]),
             "subject_via": rng.choice(["ctor", "setter"]),
             "content_type": opt(["application/json", "text/plain"]), "content_encoding": opt(["utf-8"], 0.2),
-            "durable": rng.random() < 0.7, "mandatory": False, "priority": opt([0, 5, 9], 0.3),
+            "durable": rng.random() < 0.7, "mandatory": rng.random() < 0.5, "priority": opt([0, 5, 9], 0.3),
             "correlation_id": opt(["c-1", "00005151-0000-0000-0000-000000000003.invoke", ""], 0.6),
             "reply_to": opt(["asl_workflow_reply_to-inst0", "amq.gen-7", ""], 0.6), "expiration": exp,
             "message_id": opt(["m-1", "00005151-0000-0000-0000-000000000001"], 0.6), "timestamp": opt([1700000000], 0.3),
             "type": opt(["t"], 0.2), "user_id": opt(["guest"], 0.2), "app_id": opt(["asl"], 0.2),
-            "cluster_id": opt(["c"], 0.1)}
+            "cluster_id": opt(["c"], 0.1), "threadsafe": rng.random() < 0.3}
+
+
+def drop_defaults(rng, mc):
+    """leave some of body / durable / mandatory to the Message constructor's defaults"""
+    for k in ("body", "durable", "mandatory"):
+        if rng.random() < 0.25:
+            del mc[k]
+    return mc
 
 
 FIELDS = ("content_type", "content_encoding", "priority", "correlation_id", "reply_to", "message_id", "timestamp",
           "type", "user_id", "app_id", "cluster_id")
 
 
-def impl_send(layer, rec, target, mc):
-    """send one message through the real Producer to queue q1 with a real Consumer on it"""
+MISSING = "<the Message has no such attribute>"
+
+
+def message_dict(d):
+    body = getattr(d, "body", MISSING)
+    out = {"body": body.decode("utf8") if isinstance(body, bytes) else body, "properties": getattr(d, "properties", MISSING),
+           "subject": d.subject if hasattr(d, "properties") else MISSING, "redelivered": getattr(d, "redelivered", MISSING),
+           "durable": getattr(d, "durable", MISSING), "expiration": getattr(d, "expiration", MISSING),
+           "tag": getattr(d, "_delivery_tag", MISSING)}
+    for k in FIELDS:
+        out[k] = getattr(d, k, MISSING)
+    return out
+
+
+def impl_send(layer, rec, target, mc, return_cb="plain"):
+    """send one message through the real Producer (with a return callback registered, as the task dispatcher does) to
+    queue q1 with a real Consumer on it; hand over whatever the broker then holds for this client: the delivery, or the
+    Basic.Return of an unroutable mandatory message"""
     Message = layer.mod.Message
-    got = []
+    got, ret = [], []
     layer.consumer("q1; {\"node\": {\"durable\": true}}", got.append)
     p = layer.producer(target)
-    kw = {k: mc[k] for k in FIELDS}
-    props = copy.deepcopy(mc["properties"])
-    if mc["subject_via"] == "ctor":
-        m = Message(mc["body"], properties=props, durable=mc["durable"], mandatory=mc["mandatory"],
-                    expiration=mc["expiration"], subject=mc["subject"], **kw)
+    if return_cb == "coroutine":
+        async def on_return(m):
+            ret.append(m)
+        p.set_return_callback(on_return)
     else:
-        m = Message(mc["body"], properties=props, durable=mc["durable"], mandatory=mc["mandatory"],
-                    expiration=mc["expiration"], **kw)
+        p.set_return_callback(ret.append)
+    # the constructor arguments: every field the case holds (a case that leaves body / durable / mandatory out lets the
+    # Message's own defaults speak, as most of the engine's Message(...) calls do)
+    kw = {k: mc[k] for k in FIELDS}
+    kw.update(properties=copy.deepcopy(mc["properties"]), expiration=mc["expiration"])
+    for k in ("body", "durable", "mandatory"):
+        if k in mc:
+            kw[k] = mc[k]
+    if mc["subject_via"] == "ctor":
+        m = Message(subject=mc["subject"], **kw)
+    else:
+        m = Message(**kw)
         m.subject = mc["subject"]
     m0 = rec.mark()
+    tgt = {"exchange": p.name, "subject": p.subject, "queues": sorted(layer.broker.queues)}
     try:
-        p.send(m)
+        if mc.get("threadsafe"):
+            p.send(m, threadsafe=True)          # as the REST API does from its own thread: published by the connection's loop
+            if [r for r in rec.calls[m0:] if r["op"] == "basic_publish"]:
+                return ("exc", "a threadsafe send published from the calling thread"), tgt
+            layer.run_threadsafe_callbacks()
+        else:
+            p.send(m)
     except Exception as e:
-        return ("exc", type(e).__name__), {"exchange": p.name, "subject": p.subject}
+        return ("exc", type(e).__name__), tgt
     pubs = [r for r in rec.calls[m0:] if r["op"] == "basic_publish"]
     if len(pubs) != 1:
-        return ("exc", "published %d frames" % len(pubs)), {"exchange": p.name, "subject": p.subject}
+        return ("exc", "published %d frames" % len(pubs)), tgt
     a = pubs[0]["args"]
     body = a["body"]
     frame = {"exchange": a["exchange"], "routing_key": a["routing_key"],
              "body": body.decode("utf8") if isinstance(body, bytes) else body, "mandatory": a["mandatory"],
-             "props": a["properties"].as_dict()}
-    delivered = None
+             "props": a["properties"].as_dict() if a["properties"] is not None else {"expiration": MISSING}}
+    routed = layer.broker.log[-1].get("queues") if layer.broker.log and layer.broker.log[-1]["op"] == "publish" else None
     ready = [(q, c) for (q, c) in layer.broker.ready() if q == "q1"]
-    if ready:
-        layer.broker.deliver("q1", ready[0][1])
-        if got:
-            d = got[0]
-            delivered = {"body": d.body.decode("utf8") if isinstance(d.body, bytes) else d.body, "properties": d.properties,
-                         "subject": d.subject, "redelivered": d.redelivered, "durable": d.durable,
-                         "expiration": d.expiration, "tag": d._delivery_tag}
-            for k in FIELDS:
-                delivered[k] = getattr(d, k)
-    return ("ok", frame, delivered), {"exchange": p.name, "subject": p.subject}
+    try:
+        if ready:
+            layer.broker.deliver("q1", ready[0][1])
+        layer.broker.flush_pending()
+        if layer.transport == "asyncio":
+            for _ in range(3):
+                Layer.loop.run_until_complete(asyncio.sleep(0))
+    except Exception as e:
+        return ("exc", "handing over: " + type(e).__name__), tgt
+    info = {"routed": routed, "handed_to_consumer": len(ready[:1]), "listener_calls": len(got), "return_calls": len(ret)}
+    delivered = message_dict(got[0]) if got else None
+    returned = message_dict(ret[0]) if ret else None
+    return ("ok", frame, delivered, returned, info), tgt
 
 
 def run_messages(chk, rec, quick):
@@ -485,22 +624,24 @@ def run_messages(chk, rec, quick):
         mc.update(expiration=e, subject="q1", properties=None)
         todo.append(dict(mc, _target="", _stream="expirations"))
     for _ in range(n):
-        todo.append(dict(gen_message(rng), _target=rng.choice(["", "q1", "q1", "q2"]), _stream="random"))
+        todo.append(dict(drop_defaults(rng, gen_message(rng)), _target=rng.choice(["", "q1", "q1", "q2"]), _stream="random"))
     rows, lines = [], []
     for mc in todo:
         target, stream = mc.pop("_target"), mc.pop("_stream")
+        rcb = mc.pop("return_cb", None) or rng.choice(["plain", "plain", "coroutine"])
         for tr in TRANSPORTS:
             layer = Layer(tr)
-            got, tgt = impl_send(layer, rec, target, mc)
+            got, tgt = impl_send(layer, rec, target, mc, rcb if tr == "asyncio" else "plain")
             ep = expiry_proto(mc["expiration"])
             proto = dict(mc, properties=mc["properties"] if mc["properties"] is not None else {}, expiration=ep)
             proto.pop("subject_via")
+            proto.pop("threadsafe", None)
             lines.append("amqp\tsend\t%s\t%s\t%s" % (tr, pj(tgt), pj(proto)) if ep is not None else "amqp\tnope")
-            rows.append((tr, target, stream, mc, got))
+            rows.append((tr, target, stream, mc, got, rcb))
     answers = common.driver(lines, shards=8)
     pair = {}
-    for (tr, target, stream, mc, got), ans in zip(rows, answers):
-        case = {"kind": "send", "transport": tr, "target": target, "message": mc, "stream": stream}
+    for (tr, target, stream, mc, got, rcb), ans in zip(rows, answers):
+        case = {"kind": "send", "transport": tr, "target": target, "message": dict(mc, return_cb=rcb), "stream": stream}
         ekind = type(mc["expiration"]).__name__
         chk.dist("send.expiration.%s" % ekind)
         key = cj([tr, target, {k: (repr(v) if isinstance(v, float) else v) for k, v in mc.items()}])
@@ -509,25 +650,44 @@ def run_messages(chk, rec, quick):
             chk.count("send|" + key, True)
             chk.dist("send.%s.raised.%s" % (stream, got[1]))
             chk.report("impl-violates-law", case, impl=got, classify=classify,
-                       law="expiration_clamped: send() transmits the message with an absent or non-negative integer expiration "
-                           "whatever the expiration value is (it raised instead)")
+                       law="expiration_clamped / message_mapping_roundtrip: send() transmits the message with an absent or "
+                           "non-negative integer expiration whatever the expiration value is, and the delivery / the return "
+                           "is handed to the registered listener / callback (it raised instead)")
             continue
-        frame, delivered = got[1], got[2]
+        frame, delivered, returned, info = got[1], got[2], got[3], got[4]
         if not law_expiration(frame["props"]["expiration"]):
             chk.report("impl-violates-law", case, impl=frame["props"]["expiration"], classify=classify,
                        law="expiration_clamped: the expiration property sent is absent or the decimal text of a non-negative integer")
-        if delivered is not None:
-            want_props = mc["properties"] if mc["properties"] is not None else {}
-            if mc["subject"]:
-                want_props = dict(want_props, **{"x-amqp-0-9-1.subject": mc["subject"]})
-            intact = (delivered["body"] == mc["body"] and delivered["properties"] == want_props and
-                      delivered["subject"] == (mc["subject"] or want_props.get("x-amqp-0-9-1.subject")) and
-                      delivered["correlation_id"] == mc["correlation_id"] and delivered["reply_to"] == mc["reply_to"] and
-                      delivered["expiration"] == frame["props"]["expiration"])
+        # the sent message arrives: what the broker handed to this client reached the registered listener / callback, once
+        unroutable_mandatory = frame["mandatory"] and info["routed"] == []
+        if info["listener_calls"] != info["handed_to_consumer"] or info["return_calls"] != (1 if unroutable_mandatory else 0):
+            chk.report("impl-violates-law", case, impl=info, classify=classify,
+                       law="message_mapping_roundtrip / unroutable_request_returned: a delivery reaches the Consumer's message "
+                           "listener and a returned (unroutable, mandatory) message reaches the Producer's return callback, "
+                           "exactly once")
+        want_props = mc["properties"] if mc["properties"] is not None else {}
+        if mc["subject"]:
+            want_props = dict(want_props, **{"x-amqp-0-9-1.subject": mc["subject"]})
+        for what, d in (("arrives", delivered), ("comes back", returned)):
+            if d is None:
+                continue
+            intact = (d["body"] == mc.get("body", "") and d["properties"] == want_props and
+                      d["subject"] == (mc["subject"] or want_props.get("x-amqp-0-9-1.subject")) and
+                      d["correlation_id"] == mc["correlation_id"] and d["reply_to"] == mc["reply_to"] and
+                      d["expiration"] == frame["props"]["expiration"] and
+                      (d["tag"] == 0) == (what == "comes back"))
             if not intact:
-                chk.report("impl-violates-law", case, impl=delivered, classify=classify,
-                           law="message_mapping_roundtrip: body, subject, properties, correlation id, reply-to arrive intact")
-        chk.dist("send.%s.%s" % (stream, "delivered" if delivered is not None else "unrouted"))
+                chk.report("impl-violates-law", case, impl=d, classify=classify,
+                           law="message_mapping_roundtrip: body, subject, properties, correlation id, reply-to and expiration "
+                               "intact when the message %s" % what)
+        chk.dist("send.%s.%s" % (stream, "delivered" if delivered is not None else
+                                 ("returned" if returned is not None else "unrouted")))
+        if mc.get("threadsafe"):
+            chk.dist("send.threadsafe")
+        if any(k not in mc for k in ("body", "durable", "mandatory")):
+            chk.dist("send.constructor_defaults(body/durable/mandatory left out)")
+        if returned is not None:
+            chk.dist("send.return_callback.%s" % (rcb if tr == "asyncio" else "plain"))
         m = parse_answer(ans)
         pair.setdefault(cj([target, key.split(",", 1)[1]]), []).append((case, got))
         if m[0] != "ok":
@@ -535,13 +695,17 @@ def run_messages(chk, rec, quick):
             chk.dist("send.unsupported(inexact float region / outside the model)")
             continue
         chk.count("send|" + key, mc["expiration"] is not None or bool(mc["properties"]))
-        mf, md = m[1]["frame"], m[1]["delivered"]
-        ok = cj(frame) == cj(mf)
+        mf, md, mr = m[1]["frame"], m[1]["delivered"], m[1]["returned"]
+        ok = cj(frame) == cj(mf) and m[1]["is_returned"] == (returned is not None)
         if ok and delivered is not None:
             ok = cj(delivered) == cj({k: md[k] for k in delivered})
+        if ok and returned is not None:
+            ok = cj(returned) == cj({k: mr[k] for k in returned})
         if not ok:
-            chk.report("impl-differs-from-spec", case, impl={"frame": frame, "delivered": delivered}, model=m[1],
-                       classify=classify, law="Producer.send / Consumer.message_listener map Message <-> BasicProperties as the model")
+            chk.report("impl-differs-from-spec", case, impl={"frame": frame, "delivered": delivered, "returned": returned},
+                       model=m[1], classify=classify,
+                       law="Producer.send / Consumer.message_listener / Producer.return_callback map Message <-> BasicProperties "
+                           "as the model, and the message comes back exactly when the model says so")
         elif len(chk.cov["samples"]) < 4 and mc["expiration"] not in (None, 0) and delivered is not None:
             chk.sample({"stream": "send", "transport": tr, "expiration_given": repr(mc["expiration"]),
                         "expiration_sent": frame["props"]["expiration"], "routing_key": frame["routing_key"]})
@@ -566,29 +730,49 @@ def run_acks(chk, rec, quick):
         for tr in TRANSPORTS:
             layer = Layer(tr)
             got = []
-            layer.consumer("q1", got.append)
-            p = layer.producer("q1")
-            for j in range(k):
-                p.send(layer.mod.Message("m%d" % j))
-                layer.broker.deliver("q1", layer.broker.ready()[0][1])
             ch = layer.session.channel
-            for a in already:
-                got[a].acknowledge(multiple=False)
+            try:
+                layer.consumer("q1", got.append)
+                p = layer.producer("q1")
+                for j in range(k):
+                    p.send(layer.mod.Message("m%d" % j))
+                    layer.broker.deliver("q1", layer.broker.ready()[0][1])
+                for a in already:
+                    got[a].acknowledge(multiple=False)
+                setup = None if len(got) == k else "%d of %d deliveries reached the message listener" % (len(got), k)
+            except Exception as e:
+                setup = "%s: %s" % (type(e).__name__, e)
+            if setup is not None:
+                chk.count("ack|setup|" + cj([tr, k]), True)
+                chk.report("impl-violates-law", {"kind": "ack", "transport": tr, "outstanding": k, "tag": None, "mode": mode},
+                           impl=setup, classify=classify,
+                           law="message_mapping_roundtrip / ack_this_delivery_only: k messages sent to a queue with a Consumer "
+                               "on it are handed to its message listener and can be acknowledged one by one")
+                continue
             before = sorted(ch.unacked)
             tag = got[pick]._delivery_tag
+            ts = rng.random() < 0.3            # from "another thread": the acknowledgement is made by the connection's loop
+            log0 = len(layer.broker.log)
             try:
                 if mode == "message":
-                    got[pick].acknowledge(multiple=False)
+                    got[pick].acknowledge(multiple=False, threadsafe=ts)
                 elif mode == "session":
-                    layer.session.acknowledge(got[pick])
+                    layer.session.acknowledge(got[pick], threadsafe=ts)
                 elif mode == "jms-all":
-                    got[pick].acknowledge()
+                    got[pick].acknowledge(threadsafe=ts)
                 else:
-                    layer.session.acknowledge()
-                after = ("ok", sorted(ch.unacked))
+                    layer.session.acknowledge(threadsafe=ts)
+                early = None
+                if ts:
+                    early = sorted(ch.unacked) != before
+                    layer.run_threadsafe_callbacks()
+                # what is still outstanding, whether the channel survived (an unknown tag closes it and everything
+                # outstanding is requeued), and which deliveries the broker saw acknowledged
+                acked = sorted(fr["tag"] for fr in layer.broker.log[log0:] if fr["op"] == "ack" and not fr.get("unknown"))
+                after = ("ok", sorted(ch.unacked), ch.is_open, acked, early)
             except Exception as e:
                 after = ("exc", type(e).__name__)
-            rows.append((tr, k, pick, mode, before, tag, after))
+            rows.append((tr, k, pick, mode + (".threadsafe" if ts else ""), before, tag, after))
             lines.append("amqp\tack\t%s\t%s\t%d\t%s" % (tr, pj(before), tag, "true" if mode.endswith("all") else "false"))
     answers = common.driver(lines)
     for (tr, k, pick, mode, before, tag, after), ans in zip(rows, answers):
@@ -596,15 +780,19 @@ def run_acks(chk, rec, quick):
         chk.count("ack|" + cj([tr, before, tag, mode]), len(before) > 1)
         chk.dist("ack.%s" % mode)
         m = parse_answer(ans)
-        if mode in ("message", "session"):
-            law = after[0] == "ok" and after[1] == [t for t in before if t != tag]
+        if mode.split(".")[0] in ("message", "session"):
+            law = (after[0] == "ok" and after[1] == [t for t in before if t != tag] and after[2] is True and
+                   after[3] == [tag] and not after[4])
             if not law:
                 chk.report("impl-violates-law", case, impl=after, classify=classify,
-                           law="ack_this_delivery_only: acknowledging a message acknowledges that delivery and no other")
+                           law="ack_this_delivery_only: acknowledging a message acknowledges that delivery and no other (and "
+                               "leaves the channel open)")
                 continue
-        if m[0] != "ok" or after[0] != "ok" or after[1] != m[1]:
+        if m[0] != "ok" or after[0] != "ok" or after[1] != m[1] or after[2] is not True or \
+                after[3] != [t for t in before if t not in m[1]] or after[4]:
             chk.report("impl-differs-from-spec", case, impl=after, model=m, classify=classify,
-                       law="Message.acknowledge / Session.acknowledge leave the model's outstanding deliveries")
+                       law="Message.acknowledge / Session.acknowledge acknowledge exactly the deliveries the model says, on an "
+                           "open channel (a threadsafe acknowledgement: when the connection's loop runs it)")
     chk.cov["streams"]["ack"] = n
 
 
@@ -665,9 +853,13 @@ class AddressSpy(object):
         self.orig = []
 
 
-def make_sim(instances, qt, aio, ids=None, qn="asl_workflow_events"):
-    """Sim with chosen instance ids / queue name (Sim itself fixes them to inst<k> / asl_workflow_events)"""
-    if ids is None and qn == "asl_workflow_events":
+DEFAULT_CAPS = (1000, 1000, 100)          # shared / instance / reply-to prefetch of harness/sim.py's configuration
+
+
+def make_sim(instances, qt, aio, ids=None, qn="asl_workflow_events", caps=None):
+    """Sim with chosen instance ids / queue name / consumer capacities (Sim itself fixes them to inst<k> /
+    asl_workflow_events / 1000, 1000, 100)"""
+    if ids is None and qn == "asl_workflow_events" and caps is None:
         return simmod.Sim(instances=instances, queue_type=qt, asyncio_impl=aio)
     orig = simmod.default_config
 
@@ -676,6 +868,9 @@ def make_sim(instances, qt, aio, ids=None, qn="asl_workflow_events"):
         k = int(instance_id[4:])
         c["event_queue"]["instance_id"] = ids[k] if ids else instance_id
         c["event_queue"]["queue_name"] = qn
+        if caps:
+            (c["event_queue"]["shared_event_consumer_capacity"], c["event_queue"]["instance_event_consumer_capacity"],
+             c["event_queue"]["reply_to_consumer_capacity"]) = caps
         return c
     simmod.default_config = cfg
     try:
@@ -685,26 +880,42 @@ def make_sim(instances, qt, aio, ids=None, qn="asl_workflow_events"):
 
 
 def run_startup(chk, rec, quick):
+    import pika
+    baseline = broker_entities(pika.broker.Broker())
     spy = AddressSpy(rec).install()
     try:
         combos = []
         for n in (1, 2, 3):
             for qt in ("classic", "quorum"):
                 for aio in (True, False):
-                    combos.append((n, qt, aio, None, "asl_workflow_events"))
+                    combos.append((n, qt, aio, None, "asl_workflow_events", None))
         for _ in range(6 if quick else 60):
             n = chk.rng.randint(1, 3)
             combos.append((n, chk.rng.choice(["classic", "quorum"]), chk.rng.random() < 0.5,
-                           chk.rng.sample(CLEAN_IDS, n), chk.rng.choice(QUEUE_NAMES)))
+                           chk.rng.sample(CLEAN_IDS, n), chk.rng.choice(QUEUE_NAMES),
+                           chk.rng.choice([None, (chk.rng.randint(1, 2000), chk.rng.randint(1, 2000), chk.rng.randint(1, 500))])))
         lines, meta = [], []
-        for ci, (n, qt, aio, ids, qn) in enumerate(combos):
+        started = {}
+        for ci, (n, qt, aio, ids, qn, caps) in enumerate(combos):
             spy.seen = []
-            s = make_sim(n, qt, aio, ids, qn)
             tr = "asyncio" if aio else "blocking"
-            case = {"kind": "startup", "instances": n, "queue_type": qt, "transport": tr, "ids": ids, "queue_name": qn}
+            case = {"kind": "startup", "instances": n, "queue_type": qt, "transport": tr, "ids": ids, "queue_name": qn,
+                    "capacities": list(caps) if caps else None}
             chk.count("startup|" + cj(case), True)
             chk.dist("startup.%d.%s.%s" % (n, qt, tr))
+            try:
+                s = make_sim(n, qt, aio, ids, qn, caps)
+            except (SystemExit, Exception) as e:
+                # EventDispatcher.start* logs whatever went wrong and calls sys.exit(1): the engine does not come up
+                chk.report("impl-violates-law", case, impl={"start-up": "%s(%s)" % (type(e).__name__, e),
+                                                             "addresses": [(x["role"], x["address"]) for x in spy.seen]},
+                           classify=classify,
+                           law="address_declares: the engine starts: every one of its address strings is accepted by the "
+                               "messaging layer and the broker (start-up was abandoned instead)")
+                continue
+            have_entities = broker_entities(s.broker) - baseline
             desc = s.broker.describe()
+            started[ci] = {"case": case, "desc": desc, "have": have_entities, "want": set()}
             # the address strings the engine built, against the model's construction
             per_inst = {}
             for ent in spy.seen:
@@ -712,75 +923,70 @@ def run_startup(chk, rec, quick):
             if len(per_inst) != n:
                 chk.report("impl-differs-from-spec", case, impl={"sessions": len(per_inst)}, classify=classify,
                            law="one session per instance")
-            expected_q, expected_cons, expected_ex = {}, {}, {}
+            cs, cinst, cr = caps or DEFAULT_CAPS
             for k, ents in enumerate(per_inst.values()):
                 iid = ids[k] if ids else "inst%d" % k
                 nm = engine_names(qn, qt, iid)
                 want = [("consumer", nm["reply_addr"]), ("producer", ""), ("producer", nm["shared"]),
                         ("producer", nm["topic_addr"]), ("consumer", nm["shared_addr"]), ("consumer", nm["instance_addr"])]
+                capacity = [cr, None, None, None, cs, cinst]
                 have = [(e["role"], e["address"]) for e in ents]
                 if have != want:
                     chk.report("impl-differs-from-spec", dict(case, instance=k), impl=have, model=want, classify=classify,
                                law="the engine's address strings are the model's (queue names from queue_name / queue_type / instance_id)")
+                    started[ci]["skip"] = True
                     continue
                 for j, e in enumerate(ents):
                     end = ents[j + 1]["mark"] if j + 1 < len(ents) else None
-                    ops = []
-                    for r in rec.calls[e["mark"]:end]:
-                        if r["ch"] is e["session"].channel and op_json(r) is not None:
-                            ops.append(op_json(r))
-                    lines.append(model_open_line(e["role"], e["transport"], e["env"], e["address"]))
-                    meta.append((dict(case, instance=k, role=e["role"], address=e["address"], combo=ci), ops, nm, desc))
+                    ch = e["session"].channel
+                    ops = declarations(rec, e["mark"], ch, until=end)
+                    lines.append(model_open_line(e["role"], e["transport"], e["env"], e["address"], capacity[j]))
+                    meta.append((dict(case, instance=k, role=e["role"], address=e["address"], combo=ci, capacity=capacity[j]),
+                                 ops, e["env"], ch.connection.ident, ch.channel_number))
             s.close()
         answers = common.driver(lines)
-        # per address: the declarations; per configuration: the broker's entities rebuilt from the model's declarations
-        by_case = {}
-        for (case, ops, nm, desc), ans in zip(meta, answers):
+        # per address: the frames; per configuration: the broker's entities against what the model says those frames create
+        for (case, ops, env, conn, chno), ans in zip(meta, answers):
             m = parse_answer(ans)
             chk.cov["evaluations"] += 1
+            ent = started[case["combo"]]          # one broker per configuration run (the same configuration may be drawn twice)
+            if not temp_frames_passive(ops):
+                chk.report("impl-violates-law", case, impl=ops, classify=classify,
+                           law="probe_declares_nothing: a frame sent on a temporary channel is a passive existence probe")
             if m[0] != "ok" or cj(m[1]["ops"]) != cj(ops):
                 chk.report("impl-differs-from-spec", case, impl=ops, model=m, classify=classify,
-                           law="address_declares: the engine's address strings declare exactly the model's entities")
+                           law="address_declares: the engine's address strings make the layer send exactly the model's frames "
+                               "(prefetch, passive probe, declarations, configured prefetch, subscription)")
+                ent["skip"] = True
                 continue
-            key = case["combo"]          # one broker per configuration run (the same configuration may be drawn twice)
-            ent = by_case.setdefault(key, {"case": case, "desc": desc, "queues": {}, "consumers": {}, "exchanges": {},
-                                           "bindings": []})
-            for o in m[1]["ops"]:
-                if o["op"] == "queue_declare":
-                    ent["queues"].setdefault(o["queue"], {"queue": o["queue"], "durable": o["durable"], "exclusive": o["exclusive"],
-                                                          "auto_delete": o["auto_delete"], "arguments": o["arguments"]})
-                elif o["op"] == "consume":
-                    ent["consumers"].setdefault(o["queue"], []).append({"exclusive": o["exclusive"], "arguments": o["arguments"]})
-                elif o["op"] == "exchange_declare":
-                    ent["exchanges"].setdefault(o["exchange"], {"type": o["type"], "durable": o["durable"],
-                                                                "auto_delete": o["auto_delete"], "arguments": o["arguments"]})
-                elif o["op"] == "queue_bind":
-                    ent["bindings"].append([o["exchange"], o["queue"], o["key"] or ""])
-        for key, ent in by_case.items():
+            ent["want"] |= model_entities(m[1]["creates"], env, conn, chno)
+        for key, ent in started.items():
+            if ent.get("skip"):
+                continue
             d = ent["desc"]
-            have = {"queues": d["queues"], "exchanges": d["exchanges"], "bindings": [list(b) for b in d["bindings"]],
-                    "consumers": {q: [{"exclusive": c["exclusive"], "arguments": c["arguments"]} for c in cs]
-                                  for q, cs in d["consumers"].items()}}
-            want = {"queues": ent["queues"], "exchanges": ent["exchanges"], "bindings": ent["bindings"],
-                    "consumers": {q: ent["consumers"].get(q, []) for q in ent["queues"]}}
-            c = {k: ent["case"][k] for k in ("kind", "instances", "queue_type", "transport", "ids", "queue_name")}
-            ok = cj(have) == cj(want)
+            c = ent["case"]
+            ok = ent["have"] == ent["want"]
             # and the property's own words: durable everywhere, one exclusive consumer per instance queue
             n = c["instances"]
-            nq = [q for q in have["queues"].values()]
+            nq = list(d["queues"].values())
+            cons = d["consumers"]
             law = (len(nq) == 2 * n + 1 and all(q["durable"] is True and q["exclusive"] is False and q["auto_delete"] is False
                                                  for q in nq) and
-                   sorted(len(v) for v in have["consumers"].values()) == sorted([1] * (2 * n) + [n]) and
-                   sum(1 for v in have["consumers"].values() if len(v) == 1 and v[0]["exclusive"] is True) == n and
-                   list(have["exchanges"]) == [TOPIC] and have["exchanges"][TOPIC]["type"] == "topic" and
-                   have["exchanges"][TOPIC]["durable"] is True and have["bindings"] == [])
+                   sorted(len(v) for v in cons.values()) == sorted([1] * (2 * n) + [n]) and
+                   sum(1 for v in cons.values() if len(v) == 1 and v[0]["exclusive"] is True) == n and
+                   all(x["auto_ack"] is False for v in cons.values() for x in v) and
+                   list(d["exchanges"]) == [TOPIC] and d["exchanges"][TOPIC]["type"] == "topic" and
+                   d["exchanges"][TOPIC]["durable"] is True and d["exchanges"][TOPIC]["internal"] is False and
+                   d["bindings"] == [])
             if not ok or not law:
-                chk.report("impl-differs-from-spec" if not ok else "impl-violates-law", c, impl=have, model=want, classify=classify,
-                           law="address_declares: after start-up the broker holds exactly the durable shared / per-instance "
+                chk.report("impl-differs-from-spec" if not ok else "impl-violates-law", c,
+                           impl=sorted(ent["have"]), model=sorted(ent["want"]), classify=classify,
+                           law="address_creates: after start-up the broker holds exactly the durable shared / per-instance "
                                "(exclusive consumer) / reply (x-priority) queues and the durable topic exchange")
             elif len(chk.cov["samples"]) < 5 and n == 2:
-                chk.sample({"stream": "startup", "config": c, "queues": sorted(have["queues"]),
-                            "consumers": {q: v for q, v in have["consumers"].items()}})
+                chk.sample({"stream": "startup", "config": c, "queues": sorted(d["queues"]),
+                            "consumers": {q: [{"exclusive": x["exclusive"], "arguments": x["arguments"]} for x in v]
+                                          for q, v in cons.items()}})
         chk.cov["streams"]["startup.configurations"] = len(combos)
     finally:
         spy.uninstall()
@@ -1140,37 +1346,57 @@ def run_affinity(chk, rec, quick):
 
 # --------------------------------------------------------------------------- entry points
 
+def guarded(chk, stream, fn, *args):
+    """run one stream; an exception (or the engine's sys.exit) that escapes from *the code under test* where the stream
+    does not expect one ends the stream and is a violation — it is not an error of the harness (those still propagate)"""
+    import traceback
+    try:
+        fn(*args)
+    except (SystemExit, Exception) as e:
+        frames = traceback.extract_tb(e.__traceback__)
+        if not any(os.path.abspath(f.filename).startswith(os.path.abspath(common.REPO_PY) + os.sep) for f in frames):
+            raise
+        where = [f for f in frames if os.path.abspath(f.filename).startswith(os.path.abspath(common.REPO_PY) + os.sep)][-1]
+        chk.count("aborted|" + stream, True)
+        chk.report("impl-violates-law", {"kind": "stream-aborted", "stream": stream},
+                   impl={"exception": "%s(%s)" % (type(e).__name__, e),
+                         "raised_at": "%s:%d %s" % (os.path.relpath(where.filename, common.REPO_PY), where.lineno, where.name),
+                         "traceback": traceback.format_exception(type(e), e, e.__traceback__)[-6:]},
+                   classify=classify,
+                   law="the messaging layer / the engine carries out %s without raising (the exception came out of the code "
+                       "under test; the rest of this stream was not run)" % stream)
+
+
 def run(chk):
     quick = chk.tier == "quick"
     chk.lean_stage()
     simmod.patch_environment()
     rec = Recorder().install()
     try:
-        run_startup(chk, rec, quick)
-        rec.calls = []
-        run_addresses(chk, rec, quick)
-        rec.calls = []
-        run_messages(chk, rec, quick)
-        rec.calls = []
-        run_acks(chk, rec, quick)
-        rec.calls = []
-        run_affinity(chk, rec, quick)
+        for stream, fn in (("start-up", run_startup), ("addresses", run_addresses), ("messages", run_messages),
+                           ("acknowledgement", run_acks), ("engine runs", run_affinity)):
+            rec.calls = []
+            guarded(chk, stream, fn, chk, rec, quick)
     finally:
         rec.uninstall()
     chk.cov["rule"] = (
-        "start-up: 1-3 instances x classic/quorum x asyncio/blocking (+ seeded clean instance ids / queue names): every address "
-        "string the engine builds, the declarations made for it, and the broker's entities afterwards; addresses: seeded strings "
-        "of the documented grammar (name, subject, node/link, x-declare, x-bindings, x-subscribe; pre-declared exchanges) plus a "
-        "malformed stream (fixed oddities and single-character mutations), as Consumer and as Producer on both transports; "
+        "start-up: 1-3 instances x classic/quorum x asyncio/blocking (+ seeded clean instance ids / queue names / consumer "
+        "capacities): every address string the engine builds, every frame sent for it (prefetch, passive probe and its channel, "
+        "declarations with every argument, configured prefetch, subscription) and the broker's entities afterwards against the "
+        "model's created list; addresses: seeded strings of the documented grammar (name, subject, node/link, x-declare incl. "
+        "internal / passive, x-bindings, x-subscribe; pre-declared exchanges; a capacity or none) plus a malformed stream (fixed "
+        "oddities and single-character mutations), as Consumer and as Producer on both transports, frames and gained entities; "
         "messages: field combinations x expiration forms (int, float, numeric / padded / exponent text, negative, non-numeric, "
-        "inf, nan, huge, None) sent and delivered on both transports; acknowledgement: 1-5 outstanding deliveries x the layer's four "
-        "ways to acknowledge; engine: the engine scenario corpus + child-execution scenarios + generated machines, 1-2 concurrent "
+        "inf, nan, huge, None) x mandatory x threadsafe x constructor defaults, sent and delivered or returned (return callback: "
+        "plain / coroutine) on both transports; acknowledgement: 1-5 outstanding deliveries x the layer's four ways to acknowledge "
+        "x threadsafe; engine: the engine scenario corpus + child-execution scenarios + generated machines, 1-2 concurrent "
         "executions, seeded random schedules, every configuration in turn, laws evaluated on every delivery / publish / ack. "
-        "distinct = distinct canonical case; non-trivial = an open() that declares something, a message with an expiration or "
-        "properties, more than one outstanding delivery, a run with at least one later-event delivery")
+        "distinct = distinct canonical case; non-trivial = an open() that declares something on the session channel, a message "
+        "with an expiration or properties, more than one outstanding delivery, a run with at least one later-event delivery")
     chk.cov["exhaustive"] = False
     chk.assumptions.append("the fake pika broker's semantics (default-exchange routing by queue name, exclusive consumers refused "
-                           "a second consumer, per-channel delivery tags) stand in for RabbitMQ; exclusivity and durability are "
+                           "a second consumer, per-channel delivery tags, a passive declaration creates nothing, an unroutable "
+                           "mandatory publish is returned) stand in for RabbitMQ; exclusivity and durability are "
                            "requested by the engine and enforced by the broker")
     chk.assumptions.append("expiration values are compared with the model where double arithmetic is exact (<= 15 significant "
                            "digits, |value| < 10^15, |int| < 2^53); outside it only the property's clause is evaluated on the "
@@ -1187,13 +1413,15 @@ def replay(chk, path):
         kind = c.get("kind")
         if "address" in c and "role" in c and kind != "startup":
             for tr in (TRANSPORTS if c.get("transport") == "both" else (c["transport"],)):
-                case, got = compare_open(chk, rec, c["role"], tr, c["address"], [tuple(p) for p in c.get("predeclared", [])], "replay")
+                case, got = compare_open(chk, rec, c["role"], tr, c["address"], [tuple(p) for p in c.get("predeclared", [])], "replay",
+                                         c.get("capacity"))
                 print(tr, "impl :", got)
-                print(tr, "model:", common.driver([model_open_line(c["role"], tr, case["env"], c["address"])])[0])
+                print(tr, "model:", common.driver([model_open_line(c["role"], tr, case["env"], c["address"], case.get("capacity"))])[0])
         elif kind == "send":
             for tr in (TRANSPORTS if c.get("transport") == "both" else (c["transport"],)):
                 mc = dict(c["message"])
-                got, tgt = impl_send(Layer(tr), rec, c["target"], mc)
+                rcb = mc.pop("return_cb", None) or "plain"
+                got, tgt = impl_send(Layer(tr), rec, c["target"], mc, rcb if tr == "asyncio" else "plain")
                 print(tr, "impl :", got)
                 ep = expiry_proto(mc["expiration"])
                 if ep is not None:
@@ -1207,10 +1435,20 @@ def replay(chk, path):
         elif kind == "startup":
             spy = AddressSpy(rec).install()
             try:
-                s = make_sim(c["instances"], c["queue_type"], c["transport"] == "asyncio", c.get("ids"), c.get("queue_name", "asl_workflow_events"))
-                for e in spy.seen:
+                caps = tuple(c["capacities"]) if c.get("capacities") else None
+                try:
+                    s = make_sim(c["instances"], c["queue_type"], c["transport"] == "asyncio", c.get("ids"),
+                                 c.get("queue_name", "asl_workflow_events"), caps)
+                except (SystemExit, Exception) as e:
+                    print("start-up abandoned: %s(%s)" % (type(e).__name__, e))
+                    s = None
+                for j, e in enumerate(spy.seen):
+                    end = spy.seen[j + 1]["mark"] if j + 1 < len(spy.seen) else None
                     print(e["role"], repr(e["address"]))
-                print(json.dumps(s.broker.describe(), indent=1, default=str))
+                    for o in declarations(rec, e["mark"], e["session"].channel, until=end):
+                        print("    ", cj(o))
+                if s is not None:
+                    print(json.dumps(s.broker.describe(), indent=1, default=str))
             finally:
                 spy.uninstall()
         elif kind == "engine":
@@ -1232,6 +1470,10 @@ def replay(chk, path):
             print("actions:", pj(mon.acts))
             print("model  :", common.driver(["amqp\troute\t" + pj(mon.acts)])[0])
             print("counts :", mon.n)
+        elif kind == "stream-aborted":
+            print("a whole stream ended with an exception out of the code under test; rerun the check "
+                  "(VERIF_SEED=%s) to see it again:" % rp.get("seed"))
+            print(json.dumps(rp.get("impl"), indent=1))
         else:
             print("unknown case kind", kind)
     finally:
